@@ -1,1 +1,2 @@
 import Bec2Verif.Props.C15
+import Bec2Verif.Props.C01
